@@ -117,7 +117,7 @@ class FSA:
             self._build_in_dict()
             self._build_graph_dict()
 
-        self.start_vertices = start_vertices
+        self.start_vertices = list(start_vertices)
 
     @staticmethod
     def _defaultify_out_dict(out_dict):
